@@ -206,6 +206,22 @@ static void submit(op_t *op) {
 		if (op->kind != K_BASYNC) check_result(op);
 		return;
 	}
+	if ((op->b & 4) && op->kind >= K_ASYNC && op->kind <= K_BAAW) {
+		// a block OBJECT without flags (dispatch_block_create(0, ...)) handed to the API of the op's kind: same semantics as a plain block
+		dispatch_block_t blk = dispatch_block_create(0, ^{ item_run(op, -1); });
+		switch (op->kind) {
+		case K_ASYNC: dispatch_async(q, blk); break;
+		case K_BASYNC: dispatch_barrier_async(q, blk); break;
+		case K_SYNC: dispatch_sync(q, blk); break;
+		case K_BSYNC: dispatch_barrier_sync(q, blk); break;
+		case K_AAW: dispatch_async_and_wait(q, blk); break;
+		case K_BAAW: dispatch_barrier_async_and_wait(q, blk); break;
+		}
+		Block_release(blk);
+		logev(EV_RET, op->id, -1, 0);
+		if (op->kind == K_SYNC || op->kind == K_BSYNC || op->kind == K_AAW || op->kind == K_BAAW) check_result(op);
+		return;
+	}
 	switch (op->kind) {
 	case K_ASYNC: if (blockform) dispatch_async(q, ^{ item_run(op, -1); }); else dispatch_async_f(q, op, item_f); break;
 	case K_BASYNC: if (blockform) dispatch_barrier_async(q, ^{ item_run(op, -1); }); else dispatch_barrier_async_f(q, op, item_f); break;
